@@ -452,6 +452,52 @@ class Gen:
             base = {'t': 'op', 'o': 'neg', 'a': base}  # negative base, non-integer exponent: complex in Python
         return {'t': 'op', 'o': 'pow', 'a': base, 'b': b}, 'F'
 
+    def wrapper_case(self):
+        """a wrapper (MassAction) or leaf that CARRIES UNIQUE KEYS combined arithmetically (+ - * / ** neg, direct and reflected) with
+        another operand; the override is present in `variables` in 60 % of the cases"""
+        rng, rat = self.rng, self.mode == 'rat'
+        if not self.has_rxn:
+            self.rxn, self.has_rxn = [['A', rng.randint(1, 2)]], True
+        key = rng.choice(['k_fw', 'k1', 'k2'])
+        kval = {'t': 'num', 'v': rng.choice([2, 3, 5]) if rat else float(rng.choice([2.0, 3.0, 0.5]))}
+        r = rng.random()
+        if r < 0.6:
+            w = {'t': 'new', 'k': {'c': 'MassAction'}, 'args': {'l': [kval]}, 'uk': [key]}
+        elif r < 0.7:
+            w = {'t': 'new', 'k': {'c': 'MassAction'}, 'args': None, 'uk': [key]}           # MassAction.fk(key)
+        elif r < 0.85 and not rat:
+            self.var('temperature')
+            inner = {'t': 'new', 'k': {'c': 'Arrhenius'}, 'args': {'l': [{'t': 'num', 'v': 1e5}, {'t': 'num', 'v': 1200.0}]}, 'uk': [key]}
+            w = {'t': 'new', 'k': {'c': 'MassAction'}, 'args': {'s': inner}, 'uk': None}   # the key sits on the wrapped leaf
+        else:
+            self.var('x')
+            w = {'t': 'new', 'k': {'c': 'Poly', 'param': 'x', 'recip': False, 'shift': False},
+                 'args': {'l': [kval, {'t': 'num', 'v': 1 if rat else 1.0}]}, 'uk': [key]}
+        if rng.random() < 0.6 or w['args'] is None:
+            self.vars[key] = rat_json(self.q()) if rat else float('%.6g' % rng.uniform(0.5, 9))
+        o = rng.choice(['mul', 'mul', 'div', 'div', 'add', 'sub', 'pow', 'neg'])
+        if o == 'neg':
+            prog = {'t': 'op', 'o': 'neg', 'a': w}
+        else:
+            if o == 'pow':
+                other = {'t': 'num', 'v': 2 if rat else 2.0}
+            elif rng.random() < 0.5:
+                other = {'t': 'num', 'v': rng.choice([2, 3, 1, 0]) if rat else float(rng.choice([2.0, 4.0, 1.0, 0.0]))}
+            else:
+                other = self.leaf_pos()[0] if rng.random() < 0.5 else self.leaf_node()[0]
+            a, b = (w, other) if (rng.random() < 0.55 or o == 'pow') else (other, w)
+            if rat and o == 'div' and a['t'] == 'num' and b is w:
+                a = self.leaf_pos()[0]
+            if rat and o == 'div' and b['t'] == 'num':
+                b = self.leaf_pos()[0]          # keep the exact mode free of int / int
+            prog = {'t': 'op', 'o': o, 'a': a, 'b': b}
+            if rng.random() < 0.3:                 # one more level: (w op x) op' y
+                prog = {'t': 'op', 'o': rng.choice(['mul', 'add', 'sub']), 'a': prog, 'b': self.leaf_pos()[0]}
+        for s_, _ in self.rxn:
+            self.var(s_)
+        return {'kind': 'tree', 'num': self.mode, 'prog': prog, 'vars': [[k, self.vars[k]] for k in sorted(self.vars)],
+                'rxn': self.rxn, 'ty': 'Q' if rat else 'F'}
+
     def case(self, depth):
         prog, ty = self.expr(depth, True)
         if self.has_rxn:
@@ -700,6 +746,9 @@ class C16(Property):
         'closed formulas of Radiolytic, RampedTemp, SinTemp, Log10, Exp, EyringHS, GibbsEqConst, MassActionEq: their bodies in Model/Expr.call are '
         'hand transcriptions tied to the source by the *_guard theorems (regenerated source text) and by the correspondence; no separate spec theorem',
         'override of a defaulted or of a nested-expression argument (override_replaces_exactly is stated for stored numeric arguments)',
+        'named overrides under arithmetic composition: that an override still replaces exactly its own argument inside arbitrary trees '
+        '(+ - * / ** neg, reflected) is decided by the oracle (wrapper_case) and the correspondence; the theorems cover all_args of one '
+        'instance (override_replaces_exactly) and the refusal of UnaryWrapper arithmetic with unique keys (unarywrapper_refuses_unique_keys)',
         'linearised fits (fit_arrhenius_equation, fit_eyring_equation, _fit_linearized: numpy least squares): exploration only, not checked',
     )
     anchors = (('chempy/util/_expr.py', 'Expr.__init__'), ('chempy/util/_expr.py', 'Expr.arg'), ('chempy/util/_expr.py', 'Expr.all_args'),
@@ -722,7 +771,7 @@ class C16(Property):
     def generate(self, rng, n, tier):
         cases = []
         maxd = 3 if tier == 'quick' else 6
-        n_tree = int(n * 0.64)
+        n_tree = int(n * 0.60)
         for i in range(n_tree):
             mode = 'rat' if i % 2 == 0 else 'float'
             d = rng.randint(1, maxd)
@@ -743,6 +792,10 @@ class C16(Property):
             cases.append(self._units_case(rng, i))
         for i in range(int(n * 0.03)):
             cases.append(self._radiolytic_case(rng))
+        for i in range(int(n * 0.05)):
+            g = Gen(rng, 'rat' if i % 2 == 0 else 'float', tier)
+            g.mag = 0
+            cases.append(g.wrapper_case())
         for i in range(int(n * 0.04)):
             cases.append(self._override0_case(rng, i))
         for i in range(int(n * 0.03)):
@@ -929,7 +982,10 @@ class C16(Property):
                 for side in ('a', 'b'):     # UnaryWrapper: "can only be used when unique_keys are None" (documented ValueError)
                     q = _strip(p[side])
                     if q['t'] == 'new' and q['k']['c'] == 'MassAction' and (q['uk'] is not None or q['args'] is None):
-                        raise Skip('MassAction with unique keys in * / -')
+                        # UnaryWrapper arithmetic on a wrapper that carries unique keys: the code REFUSES it (ValueError "can only be
+                        # used when unique_keys are None").  Acceptable outcomes: that refusal, or -- if an expression is built -- the
+                        # value with exactly the named argument replaced (computed below like for any other operand)
+                        self._refusal_ok = True
                     if (side == 'b' and p['o'] == 'sub' and q['t'] == 'new' and q['k']['c'] == 'MassAction' and q['args'] and 'l' in q['args']
                             and len(q['args']['l']) == 1 and q['args']['l'][0]['t'] == 'num' and isinstance(q['args']['l'][0]['v'], Fraction)):
                         raise Skip('x - MassAction([Fraction]): the Fraction meets _implicit_conversion in `other == other*0`')
@@ -1135,7 +1191,7 @@ class C16(Property):
                 raise Skip('division by zero')
             return va / kb
         if p['t'] == 'new' and p['k']['c'] == 'MassAction' and (p['uk'] is not None or p['args'] is None):
-            raise Skip('MassAction with unique keys in * / (UnaryWrapper: ValueError by design)')
+            self._refusal_ok = True       # (see `_meaning`: refusal, or the override replaces exactly the rate constant)
         cp = self._concprod(vars_, rxn)
         v = M(p)
         if cp == 0:
@@ -1506,6 +1562,7 @@ class C16(Property):
         vars_ = {n: (real.num(v) if mode == 'float' else Fraction(real.num(v))) for n, v in c['vars']}
         rxn = c['rxn']
         self._maxabs = 0.0
+        self._refusal_ok = False
         try:
             want = self.meaning(prog, vars_, rxn, math)
         except Skip:
@@ -1522,6 +1579,8 @@ class C16(Property):
         try:
             obj = real.build(c['prog'])
         except Exception as e:
+            if self._refusal_ok and isinstance(e, ValueError) and 'unique_keys' in str(e):
+                return None               # the documented refusal of UnaryWrapper arithmetic with unique keys
             return 'building the expression raised %s although its arithmetic meaning is %r' % (exc_name(e), want)
         import numpy as np
         if isinstance(rxn, list) and self._dropped_rxn(c['prog']):
